@@ -297,9 +297,10 @@ func newExec(P *Program, wk *worker, spec HarnessSpec, prefix []int) *Exec {
 	if e.opts.Races {
 		e.race = newRaceMon()
 	}
-	// virtual clock starts at an arbitrary positive instant
-	e.now = wk.ctx.Var("clock0", BV(64))
-	e.pc = append(e.pc, wk.ctx.SLt(wk.ctx.BVConst(64, 1<<40), e.now), wk.ctx.SLt(e.now, wk.ctx.BVConst(64, 1<<61)))
+	// virtual clock starts at a fixed positive instant
+	// (a fixed origin: only differences of instants matter to the code under test,
+	// and a constant keeps the solver's time-ordering queries cheap)
+	e.now = wk.ctx.BVConst(64, 1700000000*1000000000)
 	return e
 }
 
